@@ -135,6 +135,7 @@ package evaluator
 //@   use wfForStmt(node)
 //@   ensures result != nil
 //@   loop 0: invariant newEnv != nil && fresh(newEnv)
+//@   loop 0: use wfAssignStmt(as(node.Init, *ast.AssignStmt))
 //@   modifies contents(env.store)
 
 //@ func (e *Evaluator) evalEachStmt
